@@ -43,9 +43,8 @@ private:
 
   uint16_t pop()
   {
-    uint16_t value = stack[--sp];
-    sp &= 7;
-    return value;
+    sp = (sp - 1) & 7;
+    return stack[sp];
   }
 
   void set_parity(uint8_t value);
